@@ -46,7 +46,7 @@ def check_score(g, P, A, base, ovo, label):
 @st.composite
 def fdiv_case(draw):
     return {"base": draw(st.sampled_from(sorted(FDIV))), "ovo": draw(st.booleans()), "via_mi": draw(st.booleans()),
-            "p": draw(gens.p_spec(n_max=12))}
+            "p": draw(gens.p_spec(pkinds=gens.STRUCTURED_P, n_max=12))}
 
 
 def oracle_fdiv(case):
@@ -66,8 +66,8 @@ def oracle_fdiv(case):
 # ------------------------------------------------------------------------------------------------ MMD
 @st.composite
 def mmd_case(draw):
-    return {"ovo": draw(st.booleans()), "p": draw(gens.p_spec()), "x": draw(gens.x_spec()),
-            "a": draw(gens.kernel_spec())}
+    return {"ovo": draw(st.booleans()), "p": draw(gens.p_spec(pkinds=gens.STRUCTURED_P)), "x": draw(gens.x_spec()),
+            "a": draw(gens.kernel_spec(forms=("named", "callable", "precomputed", "psd", "indef", "foreign")))}
 
 
 def check_affinity(A, Aref, label):
@@ -94,8 +94,8 @@ def oracle_mmd(case):
 # ------------------------------------------------------------------------------------------------ Wasserstein
 @st.composite
 def wass_case(draw):
-    return {"ovo": draw(st.booleans()), "p": draw(gens.p_spec(n_max=8, k_max=4)), "x": draw(gens.x_spec()),
-            "a": draw(gens.metric_spec())}
+    return {"ovo": draw(st.booleans()), "p": draw(gens.p_spec(pkinds=gens.STRUCTURED_P, n_max=8, k_max=4)), "x": draw(gens.x_spec()),
+            "a": draw(gens.metric_spec(forms=("named", "precomputed", "randdist", "foreign")))}
 
 
 def oracle_wass(case):
@@ -116,7 +116,7 @@ def oracle_wass(case):
 @st.composite
 def registry_case(draw):
     return {"name": draw(st.sampled_from(sorted(R.NAMES) + ["<None>"])), "route": draw(st.sampled_from(["model", "table"])),
-            "p": draw(gens.p_spec(n_max=8, k_max=4)), "x": draw(gens.x_spec())}
+            "p": draw(gens.p_spec(pkinds=gens.STRUCTURED_P, n_max=8, k_max=4)), "x": draw(gens.x_spec())}
 
 
 def oracle_registry(case):
@@ -154,11 +154,11 @@ def oracle_registry(case):
 # ------------------------------------------------------------------------------------------------ large shapes
 @st.composite
 def large_case(draw):
-    gs = draw(objs.gemini_spec(kernel_forms=("named", "psd", "precomputed"), metric_forms=("named", "randdist")))
+    gs = draw(objs.gemini_spec(foreign=True, kernel_forms=("named", "psd", "precomputed"), metric_forms=("named", "randdist", "foreign")))
     if gs["base"] == "wasserstein":
-        p = draw(gens.p_spec(n_min=9, n_max=26, k_max=4))
+        p = draw(gens.p_spec(pkinds=gens.STRUCTURED_P, n_min=9, n_max=26, k_max=4))
     else:
-        p = draw(gens.p_spec(n_min=20, n_max=320, k_min=2, k_max=48))
+        p = draw(gens.p_spec(pkinds=gens.STRUCTURED_P, n_min=20, n_max=320, k_min=2, k_max=48))
     return {"g": gs, "p": p, "x": draw(gens.x_spec())}
 
 
@@ -174,19 +174,19 @@ def oracle_large(case):
 
 @st.composite
 def wass_large_case(draw):
-    gs = draw(objs.gemini_spec(bases=("wasserstein",), metric_forms=("named", "randdist")))
+    gs = draw(objs.gemini_spec(foreign=True, bases=("wasserstein",), metric_forms=("named", "randdist", "foreign")))
     return {"g": gs, "p": draw(gens.p_spec(n_min=40, n_max=150, k_min=2, k_max=6)), "x": draw(gens.x_spec(d_max=3, kinds=("normal", "grid")))}
 
 
 @st.composite
 def huge_case(draw):
-    gs = draw(objs.gemini_spec(bases=("tv", "kl", "mmd", "hellinger", "chi2"), kernel_forms=("named",)))
+    gs = draw(objs.gemini_spec(foreign=True, bases=("tv", "kl", "mmd", "hellinger", "chi2"), kernel_forms=("named",)))
     return {"g": gs, "p": draw(gens.p_spec(n_min=1025, n_max=2600, k_min=2, k_max=5)), "x": draw(gens.x_spec(d_max=2, kinds=("normal",)))}
 
 
 @st.composite
 def huge_nk_case(draw):
-    gs = draw(objs.gemini_spec(bases=("tv", "kl", "hellinger", "chi2", "mmd"), kernel_forms=("named",)))
+    gs = draw(objs.gemini_spec(foreign=True, bases=("tv", "kl", "hellinger", "chi2", "mmd"), kernel_forms=("named",)))
     return {"g": gs, "p": draw(gens.p_spec(n_min=660, n_max=1700, k_min=26, k_max=48)), "x": draw(gens.x_spec(d_max=2, kinds=("normal",)))}
 
 
